@@ -1,5 +1,6 @@
 import Ebu.Proofs.ConcTrace
 import Ebu.Proofs.ConcOrder
+import Ebu.Model.TurnLock
 import Ebu.Spec.Flow
 import Ebu.Props.C03Facts
 import Ebu.Spec.Conc
@@ -90,5 +91,26 @@ theorem entry_order_example :
     Ebu.Conc.asyncEntryTickets Ebu.Conc.OrderExample.ordState 0 = [0, 1] ∧
     Ebu.Conc.lookupD Ebu.Conc.OrderExample.ordState.s.sh.serving 0 = 2 :=
   Ebu.Conc.OrderExample.order_hypotheses_satisfiable
+
+/-! ### the wake-up discipline of the ticket lock (M2t, `Ebu/Model/TurnLock.lean`) -/
+
+/-- how `releaseTurn` wakes the goroutines waiting for their turn in the CURRENT source (read off its control-flow skeleton) -/
+def sourceTurnWake : Ebu.Inflight.Wake :=
+  if Ebu.Flow.occurs Ebu.Generated.Flow.turnBroadcast Ebu.Generated.Flow.releaseTurnFlow then .broadcast
+  else if Ebu.Flow.occurs Ebu.Generated.Flow.turnSignal Ebu.Generated.Flow.releaseTurnFlow then .signal else .none
+
+/-- OBLIGATION on the current source + consequence: `releaseTurn` broadcasts, hence – whatever the order in which
+goroutines ask for their turn, park, are woken and resume – no goroutine is ever parked while its own ticket is being
+served: the turn step of M2 ("enabled exactly when serving = ticket") abstracts the condition variable soundly -/
+theorem turn_wakeups_never_lost (ops : List Ebu.TurnLock.Op) :
+    sourceTurnWake = .broadcast ∧ Ebu.TurnLock.NoLostWakeup (Ebu.TurnLock.run sourceTurnWake ops) := by
+  have h : sourceTurnWake = .broadcast := by decide +kernel
+  exact ⟨h, h ▸ Ebu.TurnLock.broadcast_no_lost_wakeup ops⟩
+
+/-- the obligation is not decoration: with `Signal` the wake-up can go to a goroutine whose turn it is not, and the one
+whose turn it is sleeps on -/
+theorem turn_signal_would_lose_a_wakeup :
+    ¬ Ebu.TurnLock.NoLostWakeup (Ebu.TurnLock.run .signal [.await 0 0, .await 2 2, .await 1 1, .release, .resume 2]) :=
+  Ebu.TurnLock.signal_loses_wakeup
 
 end Ebu.Props.C07
